@@ -370,6 +370,9 @@ def _run(ctx, ndocs, nrandom, sweep_frac, trace=True):
 
 
 def run(ctx):
+    import claimprobes
+    claimprobes.run_handover(ctx, ['nonedit'])
+    claimprobes.run(ctx, oracles=('nonedit',))
     _run(ctx, ctx.scale(170, 3000), ctx.scale(40, 80), ctx.scale(0.25, 0.5))
 
 
